@@ -39,7 +39,10 @@ type scenario struct {
 	// Stalls: frame-start offsets at which the transport returns one (0, transient error) before
 	// serving the frame (a read deadline firing between frames); the caller retries. Reader entry only.
 	Stalls []int
-	Ctor   int // 0 struct literal, 1 NewReader, 2 NewClientSideReader/NewServerSideReader
+	// Limit: Reader.MaxFrameSize; generated as exactly the largest frame payload of the stream (or more), so
+	// that a valid stream stays acceptable: a frame AT the limit is not over it.
+	Limit int64
+	Ctor  int // 0 struct literal, 1 NewReader, 2 NewClientSideReader/NewServerSideReader
 	// ContRead: the OnContinuation callback reads this many bytes (at most) of every
 	// continuation body; they are consumed by the callback, the rest is delivered by Read.
 	ContRead int
@@ -48,7 +51,7 @@ type scenario struct {
 func (s scenario) describe() interface{} {
 	return map[string]interface{}{
 		"entry": s.Entry, "state": int(s.State), "chunks": s.Chunks, "eof_with_data": s.EOFData,
-		"bufsize": s.BufSize, "frames": ref.Describe(s.Frames), "discards": s.Discards, "want": int(s.Want), "oncontinuation_reads": s.ContRead, "ctor": s.Ctor, "stall_at_frame_starts": s.Stalls,
+		"bufsize": s.BufSize, "frames": ref.Describe(s.Frames), "discards": s.Discards, "want": int(s.Want), "oncontinuation_reads": s.ContRead, "ctor": s.Ctor, "stall_at_frame_starts": s.Stalls, "max_frame_size": s.Limit,
 	}
 }
 
@@ -153,9 +156,10 @@ func newReader(src io.Reader, s scenario) *wsutil.Reader {
 	case s.Ctor == 2 && s.State == ws.StateServerSide:
 		rd = wsutil.NewServerSideReader(src)
 	default:
-		return &wsutil.Reader{Source: src, State: s.State, CheckUTF8: s.UTF8}
+		return &wsutil.Reader{Source: src, State: s.State, CheckUTF8: s.UTF8, MaxFrameSize: s.Limit}
 	}
 	rd.CheckUTF8 = s.UTF8
+	rd.MaxFrameSize = s.Limit
 	return rd
 }
 
@@ -563,6 +567,15 @@ func TestReader(t *testing.T) {
 		drawTransport(t, &s)
 		s.UTF8 = rapid.Bool().Draw(t, "utf8")
 		s.Ctor = rapid.IntRange(0, 2).Draw(t, "ctor")
+		if rapid.IntRange(0, 2).Draw(t, "limit?") == 0 {
+			for _, f := range s.Frames {
+				if n := int64(len(f.Payload)); n > s.Limit {
+					s.Limit = n
+				}
+			}
+			s.Limit += int64(rapid.SampledFrom([]int{0, 0, 1, 1000}).Draw(t, "slack"))
+			hx.Class("Reader/max-frame-size-at-or-above-the-largest-frame")
+		}
 		s.Partial = rapid.IntRange(0, 3).Draw(t, "partial") == 0
 		if rapid.IntRange(0, 3).Draw(t, "contread?") == 0 {
 			s.ContRead = rapid.SampledFrom([]int{1, 2, 3, 1000}).Draw(t, "contread")
